@@ -19,7 +19,7 @@ CHECKS = {
     "C04": (False, "SSA latch/provenance proof that Parse's panic is unreachable, definite-divergence and reader-exit loop rules, finite-domain unreachability, lineParser typestate, child-arity backing",
             "Structural parts of totality: Parse cannot reach panic(err) (latch + provenance), errors returned by Render/Format/NextBlock originate from the reader/writer, no loop has a state-preserving cycle (LOOP-D) or an end-of-input-blind reader cycle (LOOP-N), explicit unreachable-defaults are unreachable over finite domains, lineParser API state guards cannot fire from any block rule, positional child accesses are backed by producer guarantees. Implicit bounds/nil panics and progress-making loop termination are not decided.",
             "go/ssa CFG and dominators; BSET finite-domain propagation; idempotent reader methods list"),
-    "C05": (False, "BSET containment matrix, constant-kind open-call audit, marker-first path rule, construction-sequence enumeration against the documented child grammar",
+    "C05": (True, "BSET containment matrix, constant-kind open-call audit, marker-first path rule, construction-sequence enumeration against the documented child grammar",
             "Structural parts of the node grammar: lists contain only items and items occur only in lists, every item starts with a marker, reference definitions/links/images/autolinks are built with the documented child sequences on every construction path, leaf blocks receive only their verbatim leaf kinds, list/item delimiter agreement. Delimiter-stack dependent clauses (no unparsed left, no link in link) and numeric accessor ranges are not decided.",
             "go/ssa; grammar tables transcribed from the kinds' doc comments"),
     "C07": (True, "HTML lexer-state typestate + escape taint over every append to the render buffer (HTX-L, HTX-T, HTX-RAW, HTX-EMIT, ESC-SET, VOCAB)",
